@@ -1152,6 +1152,12 @@ func main() {
 		"ownership: ChallengeMessage.TargetName/TargetInfo and the values returned by ParseTargetInfo are views of the caller's buffer (zero-copy parse); that they change when the caller overwrites the buffer is counted (parse_challenge_payload_views_input, parse_target_info_values_view_input), not judged; the fixed-size fields, and everything the SPNEGO functions return, must be independent of the input after the call",
 		"the C02 verifier applied to every AUTHENTICATE reads UserName/DomainName from the message like a server; LM responses judged for 7-bit ASCII passwords only",
 	)
+	// race side run (./check builds this monitor with -race): only the workloads in which goroutines
+	// use the library at the same time; the detector's reports are filed by Finish
+	if mon.SideRace() {
+		concurrent()
+		r.Finish()
+	}
 	anchors()
 	negotiateAll()
 	challengeAll()
